@@ -43,6 +43,9 @@ checks = {
  "C12": ("exploration", "exhaustive enumeration of a structured value space (boundary numbers, the whole Unicode range in thorough, adversarial strings) through print -> read/eval, and of literal spellings against strconv/math/big",
          "ints, ~270 floats (thorough: every power of two and neighbours over the full exponent range), floats computed by the interpreter, bools, nil, every rune of ASCII/Latin-1 + representatives (thorough: all 1,112,064 scalars) as char and 1-char string, 2-char (3-char) adversarial strings, symbols, JSON-like hashes, each bare / in list / in array / nested: (read (str v)) and, for JSON-like values, (eval (read (str v))) equal v structurally; ~700 numeric literal spellings and all char/string literals and escapes denote their exact value",
          "structural comparison with numbers by value; hashes judged in the eval direction; literal grammar is a structured grid, not all strings", "§3 C12"),
+ "C11": ("exploration", "exhaustive enumeration of a structured value space through json/unjson and msgpack/unmsgpack, with encoding/json as independent judge of the JSON text",
+         "nil, bools, boundary ints, ~190 finite floats, every 1-char string over ASCII/Latin-1 + representatives (thorough: all Unicode scalars) and all 2-char adversarial strings, as scalars, in arrays, in hashes and named records (1 key x every scalar, 3 keys in all 6 orders, nested, awkward field names) and in string-keyed hashes; round trips equal the value incl. record type names and key order at every level; (json v) is accepted by encoding/json and denotes the same data",
+         "NaN/Inf excluded; string-keyed hashes judged on the JSON text only; bounded nesting", "§3 C11"),
 }
 all_ids = ["C%02d" % i for i in range(1, 21)]
 pending = {i: "check not built yet in this tree (see DESIGN.md §7 build order); will be claimed when its machinery lands" for i in all_ids if i not in checks}
